@@ -108,7 +108,8 @@ class C17(object):
     assumptions = ['Model.main() called twice on one model is outside the statement',
                    'fresh interpreter started with the same PYTHONHASHSEED']
     required_counters = ('fresh_vs_history.compared', 'series.compared', 'reparse.judged', 'logging.on', 'trace.on',
-                         'resolve.on', 'steady_state_option.on', 'history.exclusion_list_of_another_solver_edited_in_place')
+                         'resolve.on', 'steady_state_option.on', 'history.exclusion_list_of_another_solver_edited_in_place',
+                         'reparse.second_block_without_run_parameter_lines')
 
     def n_cases(self, tier):
         return 32 if tier == 'quick' else 1200
@@ -118,7 +119,15 @@ class C17(object):
             # the two blocks ask for different accuracies (explicit coarse / fine, or the parser default)
             a = G.gen_affine(rng, rho=0.5, tol=rng.choice([1e-9, 1e-3, 1e-2, 1e-5]), maxtime=rng.randint(1, 6))
             b = G.gen_affine(rng, rho=0.5, tol=rng.choice([1e-9, 1e-9, 1e-12, 1e-6]), maxtime=rng.randint(1, 6))
-            return {'kind': 'reparse', 'A': G.render(a), 'B': G.render(b),
+            b_text = G.render(b)
+            omits = False
+            if idx % 8 == 7:
+                # the second block leaves horizon and tolerance to the defaults (no MaxTime / Err_Tolerance line)
+                b = G.gen_affine(rng, rho=0.5, tol=1e-9, maxtime=2, n_exo=0)
+                b_text = '\n'.join(l for l in G.render(b).split('\n')
+                                   if not l.replace(' ', '').startswith(('MaxTime=', 'Err_Tolerance=')))
+                omits = True
+            return {'kind': 'reparse', 'A': G.render(a), 'B': b_text, 'B_omits_run_parameters': omits,
                     'B_names': sorted(set(G.all_value_names(b) + [d['name'] for d in b['decos']] + ['k', 't'])),
                     'reduction': rng.random() < 0.5, 'solve_A': rng.random() < 0.8}
         if idx % 8 not in (1, 5) and rng.random() < 0.5:
@@ -310,6 +319,8 @@ class C17(object):
                 rec.violate('reparsed_solver_fails', {'err': repr(e)[:300], 'A': case['A'], 'B': case['B']})
                 return {'verdict': 'violated', 'shape': 'reparse', 'counters': rec.counters, 'violations': rec.violations}
         rec.count('reparse.judged')
+        if case.get('B_omits_run_parameters'):
+            rec.count('reparse.second_block_without_run_parameter_lines')
         keys = sorted(s.TimeSeries.keys())
         if keys != case['B_names']:
             rec.violate('remnants_of_previous_block', {'extra': sorted(set(keys) - set(case['B_names'])),
